@@ -348,7 +348,12 @@ def run_(tier, seed):
 
     # ---- V: trace validation of the conforming runs
     if good:
-        trace_leg(run, good, thorough)
+        try:
+            trace_leg(run, good, thorough)
+        except vlib.ToolError as e:
+            if not run.violations:
+                raise
+            log("[C18] trace leg not completed on a tree with violations: %s" % e)   # the verdict stands
     return run.finish()
 
 
